@@ -2024,6 +2024,20 @@ func ruleMatchGrow(p *core.Program) []core.Obligation {
 					return ""
 				}
 				if a, ok := x.X.(*ssa.Alloc); ok {
+					// a local variable that is the destination of copy(v, src): a copy of a whole list
+					for _, r := range core.Referrers(a) {
+						ld, ok := r.(*ssa.UnOp)
+						if !ok || ld.Op != token.MUL {
+							continue
+						}
+						for _, rr := range core.Referrers(ld) {
+							if c, ok := rr.(*ssa.Call); ok {
+								if bi, ok := c.Call.Value.(*ssa.Builtin); ok && bi.Name() == "copy" && len(c.Call.Args) == 2 && c.Call.Args[0] == ld {
+									return origin(c.Call.Args[1], env, depth+1)
+								}
+							}
+						}
+					}
 					// a local variable: every value stored into it
 					for _, r := range core.Referrers(a) {
 						if st, ok := r.(*ssa.Store); ok && st.Addr == a {
@@ -2053,6 +2067,22 @@ func ruleMatchGrow(p *core.Program) []core.Obligation {
 			}
 		case *ssa.Call:
 			if bi, ok := x.Call.Value.(*ssa.Builtin); ok && bi.Name() == "append" {
+				r := origin(x.Call.Args[0], env, depth+1)
+				if r == "" || len(x.Call.Args) < 2 {
+					return r
+				}
+				// append(fresh, list...): a copy of a whole list (not of elements packed at the call)
+				if sl, ok := x.Call.Args[1].(*ssa.Slice); ok {
+					if _, packed := sl.X.(*ssa.Alloc); packed {
+						return r
+					}
+				}
+				if origin(x.Call.Args[1], env, depth+1) == "" {
+					return ""
+				}
+				return r
+			}
+			if n := core.CalleeName(&x.Call); strings.Contains(n, "slices.Clone") && len(x.Call.Args) == 1 {
 				return origin(x.Call.Args[0], env, depth+1)
 			}
 			return originOfCall(p, x, 0, env, depth, origin)
@@ -2062,6 +2092,14 @@ func ruleMatchGrow(p *core.Program) []core.Obligation {
 			}
 			return "a parameter whose callers are not followed"
 		case *ssa.MakeSlice:
+			// make + copy(dst, src): a copy of a whole list
+			for _, r := range core.Referrers(x) {
+				if c, ok := r.(*ssa.Call); ok {
+					if bi, ok := c.Call.Value.(*ssa.Builtin); ok && bi.Name() == "copy" && len(c.Call.Args) == 2 && c.Call.Args[0] == x {
+						return origin(c.Call.Args[1], env, depth+1)
+					}
+				}
+			}
 			return "a list allocated and filled from scratch (make)"
 		case *ssa.Const:
 			return "an empty list"
